@@ -155,7 +155,7 @@ class New(cssutils.util._BaseClass):
         # S
         context = self.context[-1]
         if context.startswith('pseudo-'):
-            if seq and seq[-1].value not in '+-':
+            if seq and seq[-1].type != 'COMMENT' and seq[-1].value not in '+-':
                 # e.g. x:func(a + b)
                 self.append(seq, Constants.S, 'S', token=token)
             return expected
@@ -797,7 +797,7 @@ class Selector(cssutils.util.Base2):
 
             elif (
                 typ == 'FUNCTION'
-                and val == 'not('
+                and self._tokenvalue(t, normalize=True) == 'not('
                 and tokens
                 and ':' == self._tokenvalue(tokens[-1])
             ):
